@@ -133,7 +133,7 @@ def generate(rng, tier):
         f = {'dt': dtid, 'k': k, 'pid': p['pid'], 'kind': kind}
         if kind == 'raise':
             f['exc'] = rng.choice(['ValueError', 'KeyError', 'ZeroDivisionError'])
-            f['msg'] = 'fault ' + p['pid']
+            f['msg'] = rng.choice(['fault %s', 'fault %s went wrong.', 'fault %s in file data.txt']) % p['pid']
         plan.append(f)
     return {'profile': ID, 'world': world, 'ops': ops, 'plan': plan,
             'env': {'listing_seed': rng.randint(0, 99)}}
